@@ -1,11 +1,11 @@
-import CruxVerif.Model.Bridge
+import CruxVerif.Model.Hosts
 import CruxVerif.Util.Sexp
 import CruxVerif.Util.Hex
 /-! Line protocol of the `rt` engine.
   case : `(direct CMD (ACTION*))` | `(core ((TAG CMD)*) (ACTION*))`
   observation : steps separated by ` | ` (see `showStepDirect` / `showStepCore`) -/
 namespace Driver.Rt
-open M.Rt Util
+open M.Rt M.Hosts Util
 
 def parseExpr : Sexp → Option Expr
   | .atom s =>
@@ -54,15 +54,6 @@ partial def parseCmd : Sexp → Option Cmd
   | .list [.atom "abortable", n, c] => do pure (.abortable (← n.nat?) (← parseCmd c))
   | _ => none
 
-/-- what an independent decoder makes of raw bytes: `?` = use the model's bincode decoder -/
-inductive Dec (α : Type) where
-  | model | err | val (a : α)
-
-inductive Action where
-  | res (k : Nat) (v : Val) | drop (k : Nat) | abort (n : Nat) | poll | ev (tag : Nat) (v : Val)
-  | rawRes (k : Nat) (bytes : List Nat) (dec : Dec Val)
-  | rawEv (bytes : List Nat) (dec : Dec Ev)
-
 def parseAction : Sexp → Option Action
   | .list [.atom "res", k, v] => do pure (.res (← k.nat?) (← v.int?))
   | .list [.atom "drop", k] => k.nat?.map .drop
@@ -80,229 +71,100 @@ def parseAction : Sexp → Option Action
       pure (.rawEv (← ofHex h) dec)
   | _ => none
 
-def showEff (e : Eff) : String :=
-  let k := match e.res with | .never => "n" | .once _ => "o" | .many _ => "m" | .gone => "g"
-  s!"{e.op.n}:{e.op.v}:{k}"
+def showView (e : EffView) : String :=
+  match e.id with
+  | some id => s!"{id}:{e.n}:{e.v}:{e.kind}"
+  | none => s!"{e.n}:{e.v}:{e.kind}"
 
-def showEffs (es : List Eff) : String := "E[" ++ String.intercalate "," (es.map showEff) ++ "]"
+def showViews (es : List EffView) : String := "E[" ++ String.intercalate "," (es.map showView) ++ "]"
 def showEv (e : Ev) : String := s!"{e.tag}:{e.v}"
-def showEvs (es : List Ev) : String := "V[" ++ String.intercalate "," (es.map showEv) ++ "]"
-
-def showRes : ResolveResult → String
-  | .ok => "ok" | .never => "never" | .finished => "finished" | .gone => "gone"
+def showEvs (es : List Ev) : String := String.intercalate "," (es.map showEv)
 
 def anomalies (w : World) : String :=
   if w.anomalies.isEmpty then "" else " ANOMALY[" ++ String.intercalate ";" w.anomalies ++ "]"
 
-/-! ### direct host -/
+def obsRaw (o : Obs) : String :=
+  match o.probe with
+  | none => s!"{o.res} {showViews o.effs} V[{showEvs o.events}] {o.tail}"
+  | some p => s!"{o.res} {showViews o.effs} P{showViews p} {o.tail}"
 
-structure Direct where
-  w : World
-  cid : Nat
-  reqs : List Eff := []
+def evLe (a b : Ev) : Bool := a.tag < b.tag || (a.tag == b.tag && a.v ≤ b.v)
 
-/-- effects(), events(), is_done(), verif_live_tasks() -/
-def observeDirect (res : String) (d : Direct) : Option (String × Direct) := do
-  let (effs, w) ← takeEffects d.cid d.w
-  let (evs, w) ← takeEvents d.cid w
-  let (dn, w) ← isDone d.cid w
-  let live := (w.cmd d.cid).tasks.len
-  pure (s!"{res} {showEffs effs} {showEvs evs} d{if dn then 1 else 0} t{live}", { d with w := w, reqs := d.reqs ++ effs })
+/-- canonical projection: sorted multisets of effects (probe included) and events, done flag -/
+def obsCanon (o : Obs) : String :=
+  let es := sortBy keyLe (o.effs ++ (o.probe.getD []))
+  let vs := sortBy evLe o.events
+  let d := match o.done with | some true => " d1" | some false => " d0" | none => ""
+  "E{" ++ String.intercalate "," (es.map fun e => s!"{e.n}:{e.v}:{e.kind}") ++ "} V{" ++ showEvs vs ++ "}" ++ d
 
-def setNth {α : Type} (l : List α) (i : Nat) (a : α) : List α := modifyNth l i fun _ => a
+def showSteps (canon : Bool) (os : List Obs) : String :=
+  String.intercalate " | " (os.map fun o => if canon then obsCanon o else obsRaw o)
 
-def shellResolve (reqs : List Eff) (k : Nat) (v : Val) (w : World) : Option (List Eff × ResolveResult × World) :=
-  match reqs[k]? with
-  | none => none
-  | some e =>
-    let (r, res, w) := resolveReq e.res v w
-    some (setNth reqs k { e with res := r }, res, w)
+def showDirect (c : Cmd) (canon : Bool) (acts : List Action) : Option String := do
+  let (os, d) ← runDirect c canon acts
+  pure (showSteps canon os ++ anomalies d.w)
 
-def shellDrop (reqs : List Eff) (k : Nat) (w : World) : Option (List Eff × World) :=
-  match reqs[k]? with
-  | none => none
-  | some e =>
-    let (r, w) := dropReq e.res w
-    some (setNth reqs k { e with res := r }, w)
+def showCore (prog : Prog) (canon : Bool) (acts : List Action) : Option String := do
+  let (os, h) ← runCore prog canon acts
+  pure (showSteps canon os ++ (if canon then "" else " || LOG " ++ showEvs h.k.log) ++ anomalies h.k.w)
 
-def doAbort (n : Nat) (w : World) : World :=
-  match w.aborts.find? (·.1 == n) with
-  | some (_, flag) => w.modMeta flag fun m => { m with aborted := true }
-  | none => w
-
-def stepDirect (d : Direct) : Action → Option (String × Direct)
-  | .res k v =>
-      match shellResolve d.reqs k v d.w with
-      | none => observeDirect "noreq" d
-      | some (reqs, res, w) => observeDirect (showRes res) { d with w := w, reqs := reqs }
-  | .drop k =>
-      match shellDrop d.reqs k d.w with
-      | none => observeDirect "-" d
-      | some (reqs, w) => observeDirect "-" { d with w := w, reqs := reqs }
-  | .abort n => observeDirect "-" { d with w := doAbort n d.w }
-  | .poll => observeDirect "-" d
-  | _ => none
-
-def runDirect (c : Cmd) (acts : List Action) : Option String := do
-  let (cid, w) := instantiate {} c {}
-  let (s0, d) ← observeDirect "-" { w := w, cid := cid }
-  let rec go (d : Direct) (acts : List Action) (acc : List String) : Option (List String × Direct) :=
-    match acts with
-    | [] => some (acc.reverse, d)
-    | a :: rest =>
-      match stepDirect d a with
-      | none => none
-      | some (s, d) => go d rest (s :: acc)
-  let (steps, d) ← go d acts [s0]
-  pure (String.intercalate " | " steps ++ anomalies d.w)
-
-/-! ### Core host -/
-
-structure CoreHost where
-  k : Core
-  reqs : List Eff := []
-
-def probeTag : Nat := 999
-
-def statsCore (k : Core) : String :=
-  s!"s{k.execTasks.len} q{k.w.execReady.length}.{k.w.execSpawn.length}.{k.w.coreEffects.length}.{k.w.coreEvents.length}"
-
-/-- after a call: the no-op probe event, then stats -/
-def afterCall (res : String) (effs : List Eff) (h : CoreHost) : Option (String × CoreHost) := do
-  let h := { h with reqs := h.reqs ++ effs }
-  let (peffs, k) ← processEvent ⟨probeTag, 0⟩ h.k
-  let h := { h with k := k, reqs := h.reqs ++ peffs }
-  pure (s!"{res} {showEffs effs} P{showEffs peffs} l{k.log.length} {statsCore k}", h)
-
-def stepCore (h : CoreHost) : Action → Option (String × CoreHost)
-  | .ev tag v => do
-      let (effs, k) ← processEvent ⟨tag, v⟩ h.k
-      afterCall "ok" effs { h with k := k }
-  | .res kk v =>
-      match shellResolve h.reqs kk v h.k.w with
-      | none => afterCall "noreq" [] h
-      | some (reqs, res, w) =>
-        let h := { h with reqs := reqs, k := { h.k with w := w } }
-        if res == .ok then
-          match process h.k with
-          | none => none
-          | some (effs, k) => afterCall "ok" effs { h with k := k }
-        else afterCall (showRes res) [] h
-  | .drop kk =>
-      match shellDrop h.reqs kk h.k.w with
-      | none => some ("~", h)
-      | some (reqs, w) => some ("~", { h with reqs := reqs, k := { h.k with w := w } })
-  | .abort n => some ("~", { h with k := { h.k with w := doAbort n h.k.w } })
-  | _ => none
-
-def runCore (prog : List (Nat × Cmd × List (List Instr))) (acts : List Action) : Option String := do
-  let rec go (h : CoreHost) (acts : List Action) (acc : List String) : Option (List String × CoreHost) :=
-    match acts with
-    | [] => some (acc.reverse, h)
-    | a :: rest =>
-      match stepCore h a with
-      | none => none
-      | some (s, h) => go h rest (s :: acc)
-  let (steps, h) ← go { k := { prog := prog } } acts []
-  pure (String.intercalate " | " steps ++ " || LOG " ++ String.intercalate "," (h.k.log.map showEv) ++ anomalies h.k.w)
-
-/-! ### Bridge hosts -/
-open M.Bridge in
-structure BridgeHost where
-  b : Bridge
-  ids : List Nat := []                 -- K ↦ id
-  latest : List (Nat × Nat) := []      -- id ↦ latest K issued under it
-
-def showKind : Resolve → String
-  | .never => "n" | .once _ => "o" | .many _ => "m" | .gone => "g"
-
-def showBReqs (reqs : List (Nat × Eff)) : String :=
-  "E[" ++ String.intercalate "," (reqs.map fun (id, e) => s!"{id}:{e.op.n}:{e.op.v}:{showKind e.res}") ++ "]"
-
-def BridgeHost.record (h : BridgeHost) (reqs : List (Nat × Eff)) : BridgeHost :=
-  reqs.foldl (fun h (id, _) =>
-    { h with latest := (id, h.ids.length) :: h.latest.filter (·.1 != id), ids := h.ids ++ [id] }) h
-
-def showBErr : M.Bridge.BridgeError → String
-  | .deserializeEvent => "err:deser-event" | .deserializeOutput => "err:deser-output"
-  | .never => "err:never" | .finished => "err:finished"
-
-def afterCallB (res : String) (reqs : List (Nat × Eff)) (h : BridgeHost) : Option (String × BridgeHost) := do
-  let h := h.record reqs
-  let (r, b) ← M.Bridge.processEvent h.b (some ⟨probeTag, 0⟩)
-  let preqs := match r with | .ok rs => rs | .error _ => []
-  let h := ({ h with b := b }).record preqs
-  let reg := String.intercalate "," (b.registry.toList.map fun (id, r) => s!"{id}:{showKind r}")
-  pure (s!"{res} {showBReqs reqs} P{showBReqs preqs} l{b.core.log.length} {statsCore b.core} R[{reg}]", h)
-
-def stepBridge (h : BridgeHost) : Action → Option (String × BridgeHost)
-  | .ev tag v => do
-      let (r, b) ← M.Bridge.processEvent h.b (some ⟨tag, v⟩)
-      match r with
-      | .ok reqs => afterCallB "ok" reqs { h with b := b }
-      | .error e => afterCallB (showBErr e) [] { h with b := b }
-  | .rawEv bytes dec => do
-      let d := match dec with | .model => M.Bridge.decodeEv bytes | .err => none | .val e => some e
-      let (r, b) ← M.Bridge.processEvent h.b d
-      match r with
-      | .ok reqs => afterCallB "ok" reqs { h with b := b }
-      | .error e => afterCallB (showBErr e) [] { h with b := b }
-  | .res k v => respond h k (some v)
-  | .rawRes k bytes dec =>
-      respond h k (match dec with | .model => M.Bridge.decodeVal bytes | .err => none | .val v => some v)
-  | .drop _ => some ("~", h)
-  | .abort n => some ("~", { h with b := { h.b with core := { h.b.core with w := doAbort n h.b.core.w } } })
-  | .poll => none
-where
-  respond (h : BridgeHost) (k : Nat) (decoded : Option Val) : Option (String × BridgeHost) :=
-    match h.ids[k]? with
-    | none => afterCallB "noreq" [] h
-    | some id =>
-      let live := (h.latest.find? (·.1 == id)).map (·.2) == some k && (h.b.registry.get? id).isSome
-      if !live then afterCallB "stale" [] h else
-      match M.Bridge.handleResponse h.b id decoded with
-      | none => none
-      | some (.ok reqs, b) => afterCallB "ok" reqs { h with b := b }
-      | some (.err e, b) => afterCallB (showBErr e) [] { h with b := b }
-      | some (.panic, b) => afterCallB "panic" [] { h with b := b }
-
-def runBridge (prog : List (Nat × Cmd × List (List Instr))) (acts : List Action) : Option String := do
-  let rec go (h : BridgeHost) (acts : List Action) (acc : List String) : Option (List String × BridgeHost) :=
-    match acts with
-    | [] => some (acc.reverse, h)
-    | a :: rest =>
-      match stepBridge h a with
-      | none => none
-      | some (s, h) => go h rest (s :: acc)
-  let (steps, h) ← go { b := { core := { prog := prog } } } acts []
-  pure (String.intercalate " | " steps ++ " || LOG " ++ String.intercalate "," (h.b.core.log.map showEv)
-    ++ anomalies h.b.core.w)
+def showBridge (prog : Prog) (canon : Bool) (acts : List Action) : Option String := do
+  let (os, h) ← runBridge prog canon acts
+  pure (showSteps canon os ++ (if canon then "" else " || LOG " ++ showEvs h.b.core.log) ++ anomalies h.b.core.w)
 
 def parseLegacy : Sexp → Option (List Instr)
   | .list (.atom "legacy" :: is) => parseInstrs is
   | _ => none
 
-def parseProg (xs : List Sexp) : Option (List (Nat × Cmd × List (List Instr))) :=
+def parseProg (xs : List Sexp) : Option Prog :=
   xs.mapM fun
     | .list (t :: c :: ls) => do pure (← t.nat?, ← parseCmd c, ← ls.mapM parseLegacy)
     | _ => none
 
-def model (line : String) : String :=
+def hasDrop (acts : List Action) : Bool := acts.any fun | .drop _ => true | _ => false
+
+def modelOpt (line : String) : Option String := do
+  match ← Sexp.parse line with
+  | .list [.atom "direct", c, .list acts] => showDirect (← parseCmd c) false (← acts.mapM parseAction)
+  | .list [.atom "core", .list prog, .list acts] => showCore (← parseProg prog) false (← acts.mapM parseAction)
+  | .list [.atom "bridge", .list prog, .list acts] => showBridge (← parseProg prog) false (← acts.mapM parseAction)
+  | .list [.atom "jbridge", .list prog, .list acts] => showBridge (← parseProg prog) false (← acts.mapM parseAction)
+  | .list [.atom "law", .list ws, c, .list acts] => do
+      let c ← parseCmd c
+      let wrapped ← ws.foldlM (fun c w => match w with | .atom n => wrap n c | _ => none) c
+      let acts ← acts.mapM parseAction
+      let a ← showDirect c true acts
+      let b ← showDirect wrapped true acts
+      pure s!"A: {a} ## B: {b}"
+  | .list [.atom "comm", a, b, .list acts] => do
+      let a ← parseCmd a
+      let b ← parseCmd b
+      let acts ← acts.mapM parseAction
+      let o1 ← showDirect (.andC a b) true acts
+      let o2 ← showDirect (.andC b a) true acts
+      let o3 ← showDirect (.all [a, b]) true acts
+      let o4 ← showDirect (.all [b, a]) true acts
+      pure s!"A: {o1} ## B: {o2} ## C: {o3} ## D: {o4}"
+  | .list [.atom "hosts", c, .list acts] => do
+      let c ← parseCmd c
+      let acts ← acts.mapM parseAction
+      let prog : Prog := [(1, c, [])]
+      let coreActs := Action.ev 1 0 :: acts
+      let d ← showDirect c true acts
+      let k ← showCore prog true coreActs
+      if hasDrop acts then pure s!"D: {d} ## K: {k}" else
+      let b ← showBridge prog true coreActs
+      pure s!"D: {d} ## K: {k} ## B: {b} ## J: {b}"
+  | _ => none
+
+def isCase (line : String) : Bool :=
   match Sexp.parse line with
-  | some (.list [.atom "direct", c, .list acts]) =>
-    match parseCmd c, acts.mapM parseAction with
-    | some c, some acts => (runDirect c acts).getD "fuel-or-bad-index"
-    | _, _ => "bad-case"
-  | some (.list [.atom "core", .list prog, .list acts]) =>
-    match parseProg prog, acts.mapM parseAction with
-    | some prog, some acts => (runCore prog acts).getD "fuel-or-bad-index"
-    | _, _ => "bad-case"
-  | some (.list [.atom host, .list prog, .list acts]) =>
-    if host == "bridge" || host == "jbridge" then
-      match parseProg prog, acts.mapM parseAction with
-      | some prog, some acts => (runBridge prog acts).getD "fuel-or-bad-index"
-      | _, _ => "bad-case"
-    else "bad-case"
-  | _ => "bad-case"
+  | some (.list (.atom h :: _)) => ["direct", "core", "bridge", "jbridge", "law", "comm", "hosts"].contains h
+  | _ => false
+
+def model (line : String) : String :=
+  match modelOpt line with
+  | some s => s
+  | none => if isCase line then "fuel-or-bad-case" else "bad-case"
 
 end Driver.Rt
